@@ -72,6 +72,11 @@ func RunOracles(w *World, spec Spec) error {
 			return err
 		}
 	}
+	if spec.Has("ranges") {
+		if err := ORanges(w); err != nil {
+			return err
+		}
+	}
 	if spec.Has("badids") {
 		if err := OBadIDs(w); err != nil {
 			return err
